@@ -11,6 +11,8 @@ import UnytModel.DriverBase
 import UnytModel.RegistryWorld
 import UnytModel.Generated.RegistryC12Cfg
 import UnytModel.Generated.RegistryRoutes
+import UnytModel.RuleCache
+import UnytModel.Generated.RuleCacheCfg
 
 namespace Unyt
 open RegC12 RegWorld
@@ -28,6 +30,8 @@ structure C13State where
   ptab : List (String × Except Err (PExpr Float)) := []
   /-- the table cells of the user dicts made by `c13.dict`, in creation order -/
   dictCells : Array Nat := #[]
+  /-- the process-wide memo of the unit rules (`RuleCache`), one per rule name -/
+  ruleCaches : List (String × RuleCache.Cache) := []
 
 namespace C13State
 
@@ -115,7 +119,16 @@ def parseRowsC13 (s : String) : Option (Lut Float) :=
 
 def stepC13 (st : C13State) (fields : List String) : Option (C13State × String) :=
   match fields with
-  | ["c13.reset"] => some ({ st with world := startWorld st.base, dictCells := #[] }, "ok")
+  | ["c13.reset"] => some ({ st with world := startWorld st.base, dictCells := #[], ruleCaches := [] }, "ok")
+  -- a memoised unit rule called with two operands (class, registry): the registry of the answer
+  | ["c13.rule", name, ka, ra, kb, rb] =>
+    match ka.toNat?, ra.toNat?, kb.toNat?, rb.toNat? with
+    | some ka, some ra, some kb, some rb =>
+      let byReg := Generated.ruleCachesKeyed.all (·.2)
+      let c := (st.ruleCaches.lookup name).getD []
+      let (c', r) := RuleCache.call byReg (fun ks => ks.sum) c [⟨ka, ra⟩, ⟨kb, rb⟩]
+      some ({ st with ruleCaches := (name, c') :: st.ruleCaches.filter (·.1 != name) }, s!"reg\t{r.reg}")
+    | _, _, _, _ => some (st, "bad-op")
   | ["c13.cfg"] =>
     let b := fun (x : Bool) => if x then "1" else "0"
     some (st, s!"ok\t{b st.cfg.clearCache}\t{b st.cfg.purgeDerived}\t{b st.cfg.idSkipsDerived}\t{b st.cfg.memoResetLast}\t{b st.wc.cachesExplicit}")
